@@ -69,6 +69,8 @@ HARNESSES = {
     'when_any': dict(src='harness/when_any.cpp', kind='mc'),
     'timed_wait': dict(src='harness/timed_wait.cpp', kind='mc'),
     'std_prims': dict(src='harness/std_prims.cpp', kind='mc'),
+    'coro_await': dict(src='harness/coro_await.cpp', kind='mc'),
+    'coro_mutex': dict(src='harness/coro_mutex.cpp', kind='mc'),
     'pool': dict(src='harness/pool.cpp', kind='mc'),
 }
 
@@ -389,6 +391,41 @@ CHECKS = {
                      'nothing else can run, which covers every relative position of the deadline',
                      'sequentially consistent executions; preemption bound as stated'],
         technique='stateless model checking: exhaustive preemption- and timer-bounded schedule enumeration of the implementation',
+    ),
+    'C13': dict(
+        title='Coroutines resume once, after the awaited event, with its outcome, where asked',
+        level_text='every schedule (all interleavings for one awaited object; P<=3 quick / all thorough for two) of a coroutine '
+                   'returning Future that performs one await (co_await future / shared future / Task, Await of 1-2 futures incl. shared, '
+                   'mixed and iterator forms, AwaitOn(e, ...) alive and stopped, AwaitSticky single and variadic, On(e) alive and stopped, '
+                   'kYield, Yield(), CurrentExecutor(), Await(task) / co_await task over MakeTask, MakeTask+Then, Schedule, LazyContract '
+                   'and coroutine Task heads, a second coroutine awaiting the same SharedFuture) against 1-2 producer fibers completing '
+                   'with value / error / exception; started inline or after co_await On(e); with and without symmetric transfer; in '
+                   'the ASan variant and under the happens-before monitor',
+        budget=dict(quick=300, thorough=2400),
+        runs=[mc('coro_await', 'mc-asan', quick=dict(P=3, S=1), thorough=dict(P=99, S=1)),
+              mc('coro_await', 'mc-asan-nost', quick=dict(P=3, S=1), thorough=dict(P=99, S=1)),
+              mc('coro_await', 'mc-hb', quick=dict(P=3, S=1), thorough=dict(P=99, S=1)),
+              mc('coro_await', 'mc-hb-nost', quick=dict(P=3, S=1, cells='n=1|n=0'), thorough=dict(P=99, S=1))],
+        assumptions=['FIBER instantiation, g++ 12 coroutine lowering; sequentially consistent executions',
+                     'one await per coroutine body (plus the initial co_await On(e)); executors are instrumented inline executors'],
+        technique='stateless model checking: exhaustive schedule enumeration of the implementation',
+    ),
+    'C14': dict(
+        title='coroutine Mutex: mutual exclusion and no lost wake-up',
+        level_text='every schedule within the preemption bound (2 coroutines, one round: P<=3 quick / all interleavings thorough; '
+                   'two rounds: P<=3 / P<=4; 3 coroutines: P<=2 / P<=3; FairThreadPool(1): P<=2 / P<=3; FairThreadPool(2): P<=1) plus one '
+                   'spurious weak-CAS failure, of 2-3 coroutines started on their own fibers doing 1-2 lock/unlock rounds on '
+                   'Mutex<Batching,FIFO> for the four option pairs, through 12 (lock form, unlock form) combinations (Lock, TryLock, '
+                   'Guard, TryGuard, GuardSticky x Unlock, UnlockOn, UnlockHere, guard destruction, guard Unlock/UnlockOn/UnlockHere), '
+                   'running inline, on instrumented inline executors or on a real pool; plus a chain cell in which the arrival order '
+                   'A,B,C is fixed by construction and FIFO grants must follow it; both transfer modes; ASan variant and HB monitor',
+        budget=dict(quick=300, thorough=2700),
+        runs=[mc('coro_mutex', 'mc-asan', quick=dict(P=3, S=1), thorough=dict(P=99, S=1)),
+              mc('coro_mutex', 'mc-hb', quick=dict(P=3, S=1, cells='exe=(inline|pool1)'), thorough=dict(P=99, S=1)),
+              mc('coro_mutex', 'mc-asan-nost', quick=dict(P=3, S=1, cells='exe=(ex|pool1)|mode=chain'), thorough=dict(P=99, S=1))],
+        assumptions=['FIBER instantiation, g++ 12 coroutine lowering; sequentially consistent executions; preemption bounds as stated',
+                     'FIFO is checked on the chain cell where arrival order is fixed by construction (spawn edges), not by timestamps'],
+        technique='stateless model checking: exhaustive preemption-bounded schedule enumeration of the implementation',
     ),
     'C18': dict(
         title='yaclib_std locks, condition variables and threads behave like std under fibers',
